@@ -696,11 +696,14 @@ class Exec:
                 if not gname.startswith('impl '): rty = re.sub(r'(?<![\w:])%s(?![\w])' % re.escape(gname), lambda m_: gty, rty)
             tag = re.sub(r'\W+', '_', f.method or 'fn')
             vals = self.havoc_type(st, rty, tag)
+            if vals is None and rty.startswith('&mut ') and f.params and f.ltypes.get(f.params[0], '').lstrip().startswith('&mut '):
+                # a setter that hands back its own `&mut self`: the returned reference is the argument, the pointee is unknown afterwards (marked below)
+                r0 = st.store.get(st.stack[depth]['locals'].get(f.params[0]))
+                if isinstance(r0, tuple) and r0[0] == 'ref': vals = [r0]
             if vals is None: continue
             self.stats.setdefault('abstracted', []).append('%s abstracted to "any %s, or a panic" because: %s' % (f.name[-80:], rty, msg[:300]))
             # whatever the function could reach through a `&mut` parameter is unknown afterwards: the pointee becomes a marker no later comparison equals
             muts = [p_ for p_ in f.params if f.ltypes.get(p_, '').lstrip().startswith('&mut ')]
-            if muts and vals and any(isinstance(v_, tuple) and v_[0] == 'ref' for v_ in vals): continue
             outs = []
             for v in vals + [Panic('abstracted function %s may panic' % (f.method or f.name[-30:]))]:
                 s2 = st.fork(); del s2.stack[depth + 1:]
